@@ -41,6 +41,17 @@ class Recorder(ModRef):
 
 
 def run(ctx):
+    # the 'darr' program only constructs a handle (default mode 'r') and indexes it: constructors are effect-free
+    from ..effects import MUTATING
+    for cname in ('RaggedArray', 'Array'):
+        init = ctx.repo.cls(cname).methods.get('__init__')
+        eff = [e for e in ctx.E.may(init) if e.kind in MUTATING] if init is not None else []
+        ctx.decide(init is not None and not eff, 'R-OWN', 'A5', init, None, f'constructor-effect-free::{cname}',
+                   f'{cname}.__init__ performs no file-system mutation (running the generated darr read code never changes a file)',
+                   detail='opening the array can write: ' + '; '.join(e.describe() for e in eff[:3]))
+    from .C06 import t0_sources
+    t0_sources(ctx, 'readcodearray', 'A5')
+    t0_sources(ctx, 'readcoderaggedarray', 'A5')
     repo = ctx.repo
     try:
         ia, ir = space.make_interps(repo)
